@@ -163,85 +163,103 @@ func runC15(c *Ctx, wi int, seed uint64) {
 	defer w.Close()
 	ce := &Ceremony{W: w, N: n, T: t}
 	r := sched.Derive(seed, 15)
-	retired := map[int][]*types.Operation{} // per node: accepted results (for re-submission later)
 	wit := map[string]interface{}{"world": wi, "n": n, "case_seed": seed}
-	operator := func(nd *world.Node, op *types.Operation) {
-		if string(op.Type) == OpConfirm {
-			// approval path: a wrong id first
-			bad := cloneOp(op)
-			bad.ID = strings.Repeat("0", 32)
-			submitAndJudge(c, w, nd, c15Sub{"approve-participation:unknown-id", bad, "reject"}, wit)
-			c.Distinct("approve|unknown-id")
-			submitAndJudge(c, w, nd, c15Sub{"approve-participation", op, "accept"}, wit)
-			c.Distinct("approve|genuine")
-			again := submitAndJudge(c, w, nd, c15Sub{"approve-participation:again", op, "reject"}, wit)
-			_ = again
-			c.Distinct("approve|again")
-			return
-		}
-		res, err := w.ColdResult(nd, op, false)
-		if err != nil {
-			c.Inconclusive("machine: %v", err)
-			return
-		}
-		ty := string(op.Type)
-		var subs []c15Sub
-		mut := func(label string, f func(o *types.Operation)) {
-			o := cloneOp(res)
-			f(o)
-			subs = append(subs, c15Sub{label, o, "reject"})
-		}
-		mut("id:unknown", func(o *types.Operation) { o.ID = strings.Repeat("a", 32) })
-		mut("id:empty", func(o *types.Operation) { o.ID = "" })
-		if len(retired[nd.Idx]) > 0 {
-			old := retired[nd.Idx][r.Intn(len(retired[nd.Idx]))]
-			subs = append(subs, c15Sub{"id:retired-operation-resubmitted", cloneOp(old), "reject"})
-			mut("id:retired-id-with-this-result", func(o *types.Operation) { o.ID = old.ID })
-		}
-		mut("type:changed", func(o *types.Operation) { o.Type = types.OperationType(OpDeals + "x") })
-		mut("type:other-step", func(o *types.Operation) {
-			if ty == OpCommits {
-				o.Type = types.OperationType(OpDeals)
-			} else {
-				o.Type = types.OperationType(OpCommits)
+	mkOperator := func(w *world.World, retired map[int][]*types.Operation) func(nd *world.Node, op *types.Operation) {
+		return func(nd *world.Node, op *types.Operation) {
+			if string(op.Type) == OpConfirm {
+				// approval path: a wrong id first
+				bad := cloneOp(op)
+				bad.ID = strings.Repeat("0", 32)
+				submitAndJudge(c, w, nd, c15Sub{"approve-participation:unknown-id", bad, "reject"}, wit)
+				c.Distinct("approve|unknown-id")
+				submitAndJudge(c, w, nd, c15Sub{"approve-participation", op, "accept"}, wit)
+				c.Distinct("approve|genuine")
+				again := submitAndJudge(c, w, nd, c15Sub{"approve-participation:again", op, "reject"}, wit)
+				_ = again
+				c.Distinct("approve|again")
+				return
 			}
-		})
-		mut("payload:byte-flipped", func(o *types.Operation) {
-			if len(o.Payload) > 0 {
-				o.Payload[r.Intn(len(o.Payload))] ^= 1
+			res, err := w.ColdResult(nd, op, false)
+			if err != nil {
+				c.Inconclusive("machine: %v", err)
+				return
 			}
-		})
-		mut("payload:truncated", func(o *types.Operation) {
-			if len(o.Payload) > 0 {
-				o.Payload = o.Payload[:len(o.Payload)-1]
+			ty := string(op.Type)
+			var subs []c15Sub
+			mut := func(label string, f func(o *types.Operation)) {
+				o := cloneOp(res)
+				f(o)
+				subs = append(subs, c15Sub{label, o, "reject"})
 			}
-		})
-		mut("payload:empty", func(o *types.Operation) { o.Payload = nil })
-		mut("event:empty(request-only)", func(o *types.Operation) { o.Event = ""; o.ResultMsgs = nil })
-		// a result produced for another node's operation
-		other := w.Nodes[(nd.Idx+1)%n]
-		for _, oo := range w.PendingOps(other) {
-			if oo.ID != op.ID {
-				// (built by hand: running the other machine here would disturb its ceremony)
-				ores := cloneOp(oo)
-				ores.Event = res.Event
-				ores.ResultMsgs = []storage.Message{{Event: string(res.Event), Data: []byte(`{"ParticipantId":0}`), DkgRoundID: oo.DKGIdentifier}}
-				subs = append(subs, c15Sub{"foreign:result-of-another-nodes-operation", ores, "reject"})
-				break
+			mut("id:unknown", func(o *types.Operation) { o.ID = strings.Repeat("a", 32) })
+			mut("id:empty", func(o *types.Operation) { o.ID = "" })
+			if len(retired[nd.Idx]) > 0 {
+				old := retired[nd.Idx][r.Intn(len(retired[nd.Idx]))]
+				subs = append(subs, c15Sub{"id:retired-operation-resubmitted", cloneOp(old), "reject"})
+				mut("id:retired-id-with-this-result", func(o *types.Operation) { o.ID = old.ID })
 			}
+			mut("type:changed", func(o *types.Operation) { o.Type = types.OperationType(OpDeals + "x") })
+			mut("type:other-step", func(o *types.Operation) {
+				if ty == OpCommits {
+					o.Type = types.OperationType(OpDeals)
+				} else {
+					o.Type = types.OperationType(OpCommits)
+				}
+			})
+			mut("payload:byte-flipped", func(o *types.Operation) {
+				if len(o.Payload) > 0 {
+					o.Payload[r.Intn(len(o.Payload))] ^= 1
+				}
+			})
+			mut("payload:truncated", func(o *types.Operation) {
+				if len(o.Payload) > 0 {
+					o.Payload = o.Payload[:len(o.Payload)-1]
+				}
+			})
+			mut("payload:empty", func(o *types.Operation) { o.Payload = nil })
+			mut("event:empty(request-only)", func(o *types.Operation) { o.Event = ""; o.ResultMsgs = nil })
+			// a result produced for another node's operation
+			other := w.Nodes[(nd.Idx+1)%n]
+			for _, oo := range w.PendingOps(other) {
+				if oo.ID != op.ID {
+					// (built by hand: running the other machine here would disturb its ceremony)
+					ores := cloneOp(oo)
+					ores.Event = res.Event
+					ores.ResultMsgs = []storage.Message{{Event: string(res.Event), Data: []byte(`{"ParticipantId":0}`), DkgRoundID: oo.DKGIdentifier}}
+					subs = append(subs, c15Sub{"foreign:result-of-another-nodes-operation", ores, "reject"})
+					break
+				}
+			}
+			for _, s := range subs {
+				submitAndJudge(c, w, nd, s, wit)
+				c.Distinct(ty + "|" + s.Label)
+			}
+			// unchecked fields may change (the node cannot know better); still exactly-once
+			genuine := cloneOp(res)
+			if submitAndJudge(c, w, nd, c15Sub{"genuine", genuine, "accept"}, wit) {
+				retired[nd.Idx] = append(retired[nd.Idx], genuine)
+			}
+			c.Distinct(ty + "|genuine")
+			submitAndJudge(c, w, nd, c15Sub{"genuine:second-identical-submission", cloneOp(res), "reject"}, wit)
+			c.Distinct(ty + "|again")
 		}
-		for _, s := range subs {
-			submitAndJudge(c, w, nd, s, wit)
-			c.Distinct(ty + "|" + s.Label)
+	}
+	retired := map[int][]*types.Operation{} // per node: accepted results (for re-submission later)
+	operator := mkOperator(w, retired)
+	driveWorld := func(w *world.World, operator func(nd *world.Node, op *types.Operation)) bool {
+		for step := 0; step < 3000; step++ {
+			acts := w.Enabled()
+			if len(acts) == 0 {
+				return true
+			}
+			a := acts[r.Intn(len(acts))]
+			if a.Kind == "poll" {
+				_ = w.Do(a, 0)
+				continue
+			}
+			operator(w.Nodes[a.Node], a.Op)
 		}
-		// unchecked fields may change (the node cannot know better); still exactly-once
-		genuine := cloneOp(res)
-		if submitAndJudge(c, w, nd, c15Sub{"genuine", genuine, "accept"}, wit) {
-			retired[nd.Idx] = append(retired[nd.Idx], genuine)
-		}
-		c.Distinct(ty + "|genuine")
-		submitAndJudge(c, w, nd, c15Sub{"genuine:second-identical-submission", cloneOp(res), "reject"}, wit)
-		c.Distinct(ty + "|again")
+		return false
 	}
 	drive := func() bool {
 		for step := 0; step < 3000; step++ {
@@ -271,6 +289,38 @@ func runC15(c *Ctx, wi int, seed uint64) {
 	}
 	if wi == 0 {
 		c.Sample(map[string]interface{}{"world": wi, "n": n, "board_len": w.Board.Len(), "retired_operations_node0": len(retired[0])})
+	}
+	// a reinitialisation of the round on fresh nodes: the finish request (operation_processed_successfully,
+	// no board messages) goes through the same adversarial operator
+	if wi%2 == 0 {
+		var names []string
+		for _, nd := range w.Nodes {
+			names = append(names, nd.Name)
+		}
+		w2, err := world.NewWorld(world.Options{N: n, T: t, Seed: seed, CommSeed: seed + 31, Names: names})
+		if err != nil {
+			return
+		}
+		defer w2.Close()
+		keys := map[string][]byte{}
+		for _, nd := range w2.Nodes {
+			keys[nd.Name] = nd.KeyPair.Pub
+		}
+		msgs, _ := w.Board.GetMessages(0)
+		re, err := types.GenerateReDKGMessage(msgs, keys)
+		if err != nil {
+			return
+		}
+		bz, _ := json.Marshal(re)
+		if err := w2.Nodes[0].Svc.ReInitDKG(&dto.ReInitDKGDTO{ID: re.DKGID, Payload: bz}); err != nil {
+			return
+		}
+		ce2 := &Ceremony{W: w2, N: n, T: t, Round: ce.Round}
+		if !driveWorld(w2, mkOperator(w2, map[int][]*types.Operation{})) || !ce2.AllIn(StIdle) {
+			c.Inconclusive("world %d: reinitialisation under the adversarial operator did not finish: %v", wi, ce2.States())
+			return
+		}
+		c.Add("reinit_worlds_driven", 1)
 	}
 }
 
